@@ -163,6 +163,9 @@ def main(argv=None):
         len(seen), wall))
     if new:
         return 1
+    if getattr(res, "unreproduced", None):
+        print("FAULT:", res.unreproduced[0])
+        return 2
     if len(res.outcomes) < vac or res.evaluations == 0:
         print("FAULT: vacuous exploration (%d distinct outcomes from %d evaluations)" % (len(res.outcomes), res.evaluations))
         return 2
